@@ -99,6 +99,24 @@ pub fn log_close() -> u64 {
     LOG_LINES.with(|n| *n.borrow())
 }
 
+/// Capture the events of this thread in memory (worker threads have no log file).
+pub fn capture_start() {
+    CAPTURE.with(|c| *c.borrow_mut() = Some(Vec::new()));
+}
+pub fn capture_take() -> Vec<String> {
+    CAPTURE.with(|c| c.borrow_mut().take().unwrap_or_default())
+}
+/// Write an already serialized event.
+pub fn emit_raw(s: &str) {
+    LOG.with(|l| {
+        if let Some(w) = l.borrow_mut().as_mut() {
+            w.write_all(s.as_bytes()).unwrap();
+            w.write_all(b"\n").unwrap();
+        }
+    });
+    LOG_LINES.with(|n| *n.borrow_mut() += 1);
+}
+
 pub fn log_lines() -> u64 {
     LOG_LINES.with(|n| *n.borrow())
 }
